@@ -1,6 +1,7 @@
 // tables harness: C11 (block tables de-duplicate, keep indices stable, stay closed) as a state machine
 // over the nine tables of a CdnsBlock, and C19 (blocks have value semantics).
 #include <sstream>
+#include <unordered_map>
 
 #include "cdns.h"
 
@@ -46,9 +47,53 @@ static MalformedMessageData mk_mmd(const Spec& p) {
 }
 static std::vector<index_t> mk_list(const Spec& p) { std::vector<index_t> l; for (auto x : p.v) l.push_back((index_t)x); return l; }
 
+// Adversarial pool: pairs of DIFFERENT values with the SAME library hash (found once per process by a birthday search over
+// the library's public hash functor; 32-bit CRC => ~400 000 candidates give a handful of pairs).  A table that keeps one slot
+// per hash value, or compares hashes instead of values, confuses exactly these.
+struct Colliders { std::vector<std::pair<std::string, std::string>> strings; std::vector<std::pair<Spec, Spec>> questions; };
+static const Colliders& colliders() {
+  static Colliders C;
+  static bool done = false;
+  if (done) return C;
+  done = true;
+  {
+    std::unordered_map<size_t, std::string> seen;
+    seen.reserve(600000);
+    for (unsigned i = 0; i < 500000 && C.strings.size() < 6; i++) {
+      StringItem it;
+      it.data = "\x09host" + std::to_string(i * 2654435761u % 1000003) + "\x03net" + std::to_string(i) + std::string(1, '\0');
+      size_t h = CDNS::hash<StringItem>()(it);
+      auto ins = seen.emplace(h, it.data);
+      if (!ins.second && ins.first->second != it.data) C.strings.emplace_back(ins.first->second, it.data);
+    }
+  }
+  {
+    std::unordered_map<size_t, std::pair<uint32_t, uint32_t>> seen;
+    seen.reserve(600000);
+    for (uint32_t i = 0; i < 500000 && C.questions.size() < 6; i++) {
+      Question q; q.name_index = i * 40503u + 17; q.classtype_index = (i * 2246822519u) >> 7;
+      size_t h = CDNS::hash<Question>()(q);
+      auto ins = seen.emplace(h, std::make_pair(q.name_index, q.classtype_index));
+      if (!ins.second && (ins.first->second.first != q.name_index || ins.first->second.second != q.classtype_index)) {
+        Spec a, b; a.v = {(int64_t)ins.first->second.first, (int64_t)ins.first->second.second}; b.v = {(int64_t)q.name_index, (int64_t)q.classtype_index};
+        C.questions.emplace_back(a, b);
+      }
+    }
+  }
+  return C;
+}
 static Spec normalise_spec(int t, Spec p);
 static Spec gen_spec(Chooser& c, int t, bool fresh, uint64_t salt) {
   Spec p;
+  if (!fresh && (t == T_IP || t == T_NRD) && !colliders().strings.empty() && c.range(0, 3) == 0) {
+    auto& pr = colliders().strings[c.range(0, colliders().strings.size() - 1)];
+    p.s = c.coin() ? pr.first : pr.second;
+    return p;
+  }
+  if (!fresh && t == T_QRR && !colliders().questions.empty() && c.range(0, 3) == 0) {
+    auto& pr = colliders().questions[c.range(0, colliders().questions.size() - 1)];
+    return c.coin() ? pr.first : pr.second;
+  }
   auto small = [&](uint64_t hi) { return fresh ? (int64_t)c.range(0, 0xFFFF) : (int64_t)c.range(0, hi); };
   switch (t) {
     case T_IP: case T_NRD:
@@ -239,24 +284,26 @@ static void c11_tables(Case& cs) {
 
 // ---- C19 -------------------------------------------------------------------------------------------
 struct ContentOp { int kind; int t; Spec p; M::Fields f; M::AecKey k; };   // kind 0 table add, 1 generic qr, 2 aec, 3 generic mm
+// idx_out receives the index returned by a table add, or (for record adds) the "block is full" flag the call returned
 static void apply_op(CdnsBlock& b, const ContentOp& o, std::vector<index_t>* idx_out) {
   index_t r = 0;
   switch (o.kind) {
     case 0: r = blk_add(b, o.t, o.p); break;
-    case 1: b.add_question_response_record(adapt::generic_qr(o.f)); break;
-    case 2: b.add_address_event_count(adapt::generic_aec(o.k)); break;
-    default: b.add_malformed_message(adapt::generic_mm(o.f)); break;
+    case 1: r = b.add_question_response_record(adapt::generic_qr(o.f)); break;
+    case 2: r = b.add_address_event_count(adapt::generic_aec(o.k)); break;
+    default: r = b.add_malformed_message(adapt::generic_mm(o.f)); break;
   }
   if (idx_out) idx_out->push_back(r);
 }
+static uint64_t g_observe_tps = 1000000;   // tick rate of the block under observation (lens of the independent interpretation)
 static ContentOp gen_op(Chooser& c, const gen::Pools& pools, const gen::TimeCtx& tc, unsigned step) {
   ContentOp o;
   o.kind = (int)c.range(0, 3);
   gen::RecOpts ro; ro.pres = 4;
   if (o.kind == 0) { o.t = (int)c.range(0, T_N - 1); o.p = gen_spec(c, o.t, c.range(0, 3) == 0, step); }
-  else if (o.kind == 1) o.f = gen::gen_qr(c, pools, tc, 1000000, ro);
+  else if (o.kind == 1) o.f = gen::gen_qr(c, pools, tc, g_observe_tps, ro);
   else if (o.kind == 2) o.k = gen::gen_aec(c, pools);
-  else o.f = gen::gen_mm(c, pools, tc, 1000000, ro);
+  else o.f = gen::gen_mm(c, pools, tc, g_observe_tps, ro);
   return o;
 }
 // canonical observation of a block: serialised through the encoder, parsed independently
@@ -270,6 +317,7 @@ static std::string observe(CdnsBlock& b, const std::string& scratch) {
   cdnsref::Report rep; cdnsref::Interp ip(rep);
   M::Preamble pre; pre.bps.emplace_back();
   pre.bps[0].sp.hints.qr = gen::QR_ALL; pre.bps[0].sp.hints.sig = gen::SIG_ALL; pre.bps[0].sp.hints.rr = 3; pre.bps[0].sp.hints.other = 3;
+  pre.bps[0].sp.tps = g_observe_tps;
   M::BlockM bm; cdnsref::BlockTables bt;
   ip.block(n, pre, bm, bt);
   std::string o = M::dump_block(bm, true);
@@ -288,7 +336,12 @@ static void c19_value(Case& cs) {
   Chooser& c = cs.c;
   gen::Pools pools = gen::make_pools(c);
   gen::TimeCtx tc = gen::gen_timectx(c);
+  // the block's own parameters: default, or generated (hints, tick rate, block size): a copy must keep them
   BlockParameters bp;
+  M::BlockP mbp;
+  mbp.sp.hints.qr = gen::QR_ALL; mbp.sp.hints.sig = gen::SIG_ALL; mbp.sp.hints.rr = 3; mbp.sp.hints.other = 3;
+  if (c.coin()) { gen::BpOpts bo; bo.max_items = {1, 2, 3, 5, 10000}; bo.any_tps = false; mbp = gen::gen_bp(c, bo); mbp.sp.tps = c.pick<uint64_t>({1000000ull, 1000ull, 1000000000ull}); bp = adapt::lib_bp(mbp); cs.st.cls("non_default_block_parameters"); }
+  g_observe_tps = (uint64_t)mbp.sp.tps;
   std::vector<ContentOp> content;
   unsigned n = (unsigned)c.range(0, 4 + cs.size / 2);
   for (unsigned i = 0; i < n; i++) content.push_back(gen_op(c, pools, tc, i));
@@ -313,6 +366,7 @@ static void c19_value(Case& cs) {
   } else {
     // write the content to a file through the exporter and let the reader return the block
     FilePreamble fp;
+    fp.m_block_parameters[0] = bp;
     std::string fn = cs.scratch + "/c19file";
     {
       CdnsExporter ex(fp, fn, CborOutputCompression::NO_COMPRESSION);
@@ -407,6 +461,7 @@ static void c19_value(Case& cs) {
     apply_op(*copy, o, &a);
     if (have_ref) {
       apply_op(ref, o, &b);
+      if (o.kind != 0) VF_CHECK(a[0] == b[0], "sig=c19.full_flag a record add on the copy returned 'block full' = " << a[0] << ", on a freshly built block with the same content and parameters " << b[0] << " : " << desc);
       if (o.kind == 0) VF_CHECK(a[0] == b[0], "sig=c19.add_index add of " << TN[o.t] << " " << o.p.show() << " on the copy returned " << a[0] << ", a freshly built block with the same content returns " << b[0] << " : " << desc);
     }
     if (o.kind == 0) VF_CHECK(a[0] < blk_size(*copy, o.t), "sig=c19.add_index_out_of_range add of " << TN[o.t] << " " << o.p.show() << " on the copy returned index " << a[0] << " but the table has " << blk_size(*copy, o.t) << " entries : " << desc);
